@@ -12,6 +12,7 @@ R-C01-4  remaining-length accounting in the sector walk: the walk starts from
 R-C01-6  no degenerate `continue` in a table-walking loop (the condition must
          depend on something that changes on the continue path)
 R-C01-7  the catalogue of Opus volume i is at track-0 sectors 2i, 2i+1
+R-C01-8  Opus volume extents are derived from the list sorted by start sector
 R-C01-5  last_sector(): an empty file occupies no further sector; otherwise
          start + ceil(length / sector size) - 1
 """
@@ -773,11 +774,69 @@ def rule_opus_catalogue_slot(prog, fixture=False):
     return r
 
 
+# ---------------------------------------------------------------- R-C01-8
+def rule_extents_from_sorted(prog, fixture=False):
+    r = RuleResult("R-C01-8", "the extent of each Opus volume is derived from the start of the next one on the disc: "
+                   "the loop that does so runs over the volume list only after it was sorted by start sector (and "
+                   "nothing was inserted since)", floor=0 if fixture else 1)
+    for fn in prog.functions.values():
+        if not (fn.qn.endswith("OpusDiscCatalogue::OpusDiscCatalogue") or fixture):
+            continue
+        users = [n for n in fn.walk() if n.get("k") == "CXXMemberCallExpr" and (strip(n["c"][0]) or {}).get("n") == "set_next_sector"]
+        if not users:
+            continue
+        # the container the loop iterates over
+        loop = None
+        for a in fn.ancestors(users[0]):
+            if a.get("k") in ("ForStmt", "CXXForRangeStmt", "WhileStmt"):
+                loop = a
+                break
+        if loop is None:
+            r.undecided.append("%s: set_next_sector is not called from a loop" % fn.qn)
+            continue
+        cont = None
+        for x in walk(loop):
+            if x.get("k") == "CXXMemberCallExpr" and (strip(x["c"][0]) or {}).get("n") in ("rbegin", "begin", "crbegin", "cbegin", "rend", "end"):
+                c0 = strip_all((strip(x["c"][0]) or {}).get("c", [None])[0])
+                if c0 is not None and c0.get("k") in ("MemberExpr", "DeclRefExpr"):
+                    cont = c0
+                    break
+        if cont is None:
+            r.undecided.append("%s: cannot tell which container the extent loop walks" % fn.qn)
+            continue
+
+        def same_cont(e):
+            e = strip_all(e)
+            return e is not None and e.get("k") == cont.get("k") and e.get("d") == cont.get("d")
+
+        def transfer(x):
+            if x.get("k") == "CallExpr" and notpl(x.get("q") or "") in ("std::sort", "std::stable_sort"):
+                a = call_args(x)
+                if a and any(same_cont((strip(y["c"][0]) or {}).get("c", [None])[0]) for y in walk(a[0])
+                             if y.get("k") == "CXXMemberCallExpr" and (strip(y["c"][0]) or {}).get("c")):
+                    return True
+            if x.get("k") == "CXXMemberCallExpr":
+                cal = strip(x["c"][0])
+                if cal and cal.get("c") and same_cont(cal["c"][0]) and cal.get("n") in (
+                        "push_back", "emplace_back", "insert", "emplace", "erase", "clear", "resize", "assign", "swap"):
+                    return False
+            return None
+        at = flow.must_hold_at(fn, transfer)
+        first = loop
+        st = at(users[0])
+        key = "%s::%s::extent-loop" % (fn.relfile(), fn.qn)
+        r.add(key, fn.loc(first), bool(st), "runs on the sorted list" if st else
+              "the loop that gives each volume the next volume's start as its end runs before the list is sorted by "
+              "start sector: on a disc whose volumes are not laid out in label order the extents are wrong (or the "
+              "disc is rejected)")
+    return r
+
+
 def run(ctx):
     prog = ctx.prog("dfs", "N")
     r1 = c02.rule_entry_fields(prog, only=["start_sector", "file_length"], rule_id="R-C01-1")
     return [r1, rule_body_path(prog), rule_walk_accounting(prog), rule_last_sector(prog),
-            rule_degenerate_continue(prog), rule_opus_catalogue_slot(prog)]
+            rule_degenerate_continue(prog), rule_opus_catalogue_slot(prog), rule_extents_from_sorted(prog)]
 
 
 SELFTESTS = [
